@@ -543,7 +543,7 @@ func DeleteConflicts(uuid dvid.UUID, data DataService, oldParents, newParents []
 			return err
 		}
 		parentsV[i] = oldV
-		if newParents[i] != dvid.NilUUID {
+		if newParents[i] != dvid.NilUUID && newParents[i] != oldUUID {
 			newV, err := manager.versionFromUUID(newParents[i])
 			if err != nil {
 				return err
